@@ -17,8 +17,8 @@ META = {
     "real": ["gwf.core._norm_path/_norm_paths/_flatten", "gwf.core.Target.flattened_inputs/flattened_outputs/protected", "gwf.core.Graph.from_targets", "gwf.core.Graph.endpoints",
              "gwf.core.Graph.dfs", "gwf.core.check_for_circular_dependencies", "gwf.plugins.info.info/print_json/print_pretty (bodies)"],
     "stubs": ["os.getcwd (selector) for relative working directories", "VFS for file existence", "stdout captured for `gwf info`"],
-    "assumptions": ["lexical normalisation (no symlinks, case-sensitive file system)", "well-formed workflows only (the others are C04)"],
-    "outside": ["symlinks, '~', case-insensitive file systems", "spellings outside the generated catalogue (normpath is C code: spellings are selector variables)",
+    "assumptions": ["lexical normalisation on a case-sensitive file system (a symbolic link to a directory appears in Q3l only, where every way of defining a target must resolve the same declared path alike)", "well-formed workflows only (the others are C04)"],
+    "outside": ["whether two different spellings that reach one file through a symbolic link are the same file (gwf compares lexically)", "'~', case-insensitive file systems", "spellings outside the generated catalogue (normpath is C code: spellings are selector variables)",
                 "more than 3 targets x 3 files (quick: 2 x 3)"],
 }
 
